@@ -22,6 +22,7 @@ EXPLICIT_QUERIES = [
     '* | json | parseDate(t) as d | timeslice(d) 1h | count by _timeslice',
     '* | json | parseDate(s) as d | d + 1h as e | d - 1d as f | e - f as g | g * 3 as h | g / 2 as i',
     '* | json | parseDate(t) as d | d + 9223372036854775807ms as e',
+    '* | json | count by parseDate(t)', '* | json | where parseDate(s) > parseDate(t) | count',
     '* | json | 1h / a as x | 1h * a as y | 1h + 1h * b as z',
     '* | json | split(s) | split(t) on " " as u | split(s) on "é" as v',
     '* | parse "*" as x | parse "* *" as a, b nodrop | parse "a*b*c" from x as p, q nodrop noconvert',
@@ -65,6 +66,13 @@ def hostile_inputs(rng, quick):
         (0, 0, '', '0001-01-01T00:00:00Z'), (-1, 2**31, 'ff', '9999-12-31T23:59:59Z'), (1e15 + 0.5, 3, 'é' * 50, '1677-09-21T00:12:43Z'),
         (2**53 + 1, 2**32, 'NaN', '2262-04-11T23:47:17Z'), (4294967296, 0, 'inf', '275760-09-13T00:00:00Z'), (-2147483649, 1, '1,000,000.5', 'yesterday'),
         (7, 0, 'a' * 5, '2020-02-30'), (0.1, 1e-300, '0x', '12:00')])).encode('utf8')
+    # text that looks like a date or a time and is not one (the date parser is a dependency with panics of its own)
+    junk = ['12:30 -', '12:30-', '12:30+', '10:15:PM', '10:15: 30', '2020-01-01 10:15:xx', 'Jan/', 'Sept/', 'Feb/2020/', '1/Jan/', '2020/Feb/', '99999999999999999999 a-',
+            '12:30:45 -', '2020-01-01 12:30-', '::', '-', '+', 'T', 'Z', '0', '00:00:00:00', '31/31/31', 'AM', '1 PM PM', 'Monday Tuesday', '2020-13-45T25:61:61Z', '1e9', '--1', '12/', '/12', ':5']
+    toks = ['12', '30', ':', '-', '+', '/', 'PM', 'AM', 'Jan', 'Sept', 'T', 'Z', ' ', '.', '2020', '1', 'a', ',', 'UTC', '00']
+    for _ in range(60 if quick else 3000):
+        junk.append(''.join(rng.choice(toks) for _ in range(rng.randint(1, 6))))
+    yield 'date-like junk', ''.join(json.dumps({'id': i, 'a': 1, 'b': 2, 's': t, 't': t}) + '\n' for i, t in enumerate(junk)).encode('utf8')
     yield 'deep json', b'{"a": ' + b'[' * 500 + b']' * 500 + b'}\n{"a": ' + b'{"k":' * 200 + b'1' + b'}' * 200 + b'}\n' + base[:200]
     yield 'many short lines', b'x\n' * (100000 if quick else 2000000)
     yield 'apache-ish', b'127.0.0.1 - frank [10/Oct/2000:13:55:36 -0700] "GET /apache_pb.gif HTTP/1.0" 200 2326\nbroken line "GET\n' * 50
